@@ -89,7 +89,7 @@ class CodePairs(Job):
                 a.api("set_code", "7-" + wa)
                 b.api("set_code", "7-" + wb)
             a.api("send_message", b"from-A")
-            b.api("send_message", b"from-B")
+            b.api("send_message", b"")          # the empty message is a legal payload
             w.settle()
             keys = {}
             for c in (a, b):
@@ -137,7 +137,7 @@ class CodePairs(Job):
             check(isinstance(ka, tuple) and ka == kb, "derive_key differs between the sides")
             check(ka[0] != ka[1], "different purposes give the same derived key")
             check(ka[2] == ka[0][:16] or len(ka[2]) == 16, "derive_key length not honoured")
-            check(evs(a, "message") == [("message", b"from-B")] and evs(b, "message") == [("message", b"from-A")], "messages not exchanged")
+            check(evs(a, "message") == [("message", b"")] and evs(b, "message") == [("message", b"from-A")], "messages not exchanged")
             check(a.closed_events() == [("closed", "happy")] and b.closed_events() == [("closed", "happy")], "agreeing sides did not close happy")
             eng().note("nt:agree")
         else:
@@ -163,7 +163,7 @@ class CodePairs(Job):
                 return "codes %r/%r appids %r/%r: both sides report a verifier" % (wa, wb, ida, idb)
             if va != vb or keys["A"] != keys["B"] or not isinstance(keys["A"], tuple) or keys["A"][0] == keys["A"][1]:
                 return "same code: verifier/derive_key mismatch %r %r" % (keys["A"], keys["B"])
-            if evs(a, "message") != [("message", b"from-B")] or evs(b, "message") != [("message", b"from-A")]:
+            if evs(a, "message") != [("message", b"")] or evs(b, "message") != [("message", b"from-A")]:
                 return "same code: messages not exchanged"
             return None
         if same:
@@ -208,7 +208,7 @@ class Samples(Job):
                 w.settle()
                 h.choose_words(sc.split("-", 1)[1])
             a.api("send_message", b"x")
-            b.api("send_message", b"y")
+            b.api("send_message", b"")
             w.settle()
             a.api("close")
             b.api("close")
@@ -240,7 +240,7 @@ class Samples(Job):
 CONFIGS = {
     "set-set-wrongcode": dict(modes=("set", "set"), wrong_code=True),
     "alloc-input-wrongwords": dict(modes=("allocate", "input"), wrong_code=True),
-    "set-set-rightcode": dict(modes=("set", "set")),
+    "set-set-rightcode": dict(modes=("set", "set"), nmsg=(1, 2)),
     "alloc-input-rightcode": dict(modes=("allocate", "input")),
     "set-set-appids": dict(modes=("set", "set"), appids=("app1", "app2")),
 }
